@@ -832,6 +832,13 @@ Section Pool.
     - destruct l2 as [|h2 r2]; destruct n as [|n]; cbn; auto. f_equal. apply IH.
   Qed.
 
+  Lemma combine_app_eq : forall A C (l1 l2 : list A) (r1 r2 : list C), length l1 = length r1 ->
+    combine (l1 ++ l2) (r1 ++ r2) = combine l1 r1 ++ combine l2 r2.
+  Proof.
+    intros A C l1; induction l1 as [|a l1 IH]; intros l2 [|b r1] r2 H; cbn in H; try discriminate; cbn; auto.
+    f_equal. apply IH. lia.
+  Qed.
+
   Lemma nth_error_combine : forall A C (l1 : list A) (l2 : list C) n a b,
     nth_error l1 n = Some a -> nth_error l2 n = Some b -> nth_error (combine l1 l2) n = Some (a, b).
   Proof.
@@ -1673,6 +1680,137 @@ Section Pool.
     - intros ls s' H. eapply prun_bound; eauto.
     - destruct (preaches_quiescence s C) as (ls & s' & Hrun & Hsp & Q). exists ls, s'. repeat split; auto.
       eapply preach_prun; eauto.
+  Qed.
+
+  (* ================================================================ every run() call is decided exactly once *)
+  Definition pend1 (v : pc * thread pop) : list task := prog_runs (snd v) ++ runs_of (pc_ops (fst v)).
+
+  Lemma pending_views : forall s, pending s = flat_map pend1 (views s).
+  Proof. reflexivity. Qed.
+
+  Lemma count_flat_map_upd : forall A (f : A -> list task) vs t v v' k, nth_error vs t = Some v ->
+    count_occ Nat.eq_dec (flat_map f (upd t v' vs)) k + count_occ Nat.eq_dec (f v) k =
+    count_occ Nat.eq_dec (flat_map f vs) k + count_occ Nat.eq_dec (f v') k.
+  Proof.
+    intros A f. induction vs as [|h r IH]; intros [|t] v v' k H; cbn in H; try discriminate.
+    - inversion H; subst. cbn [upd flat_map]. rewrite !count_occ_app. unfold task in *. lia.
+    - cbn [upd flat_map]. rewrite !count_occ_app. specialize (IH _ _ v' k H). unfold task in *. lia.
+  Qed.
+
+  Lemma pending_wakes : forall ps ths ths', wakes ths ths' ->
+    flat_map pend1 (combine ps ths') = flat_map pend1 (combine ps ths).
+  Proof.
+    intros ps ths ths' H. revert ps. induction H as [|a b l l' Hk Hw IH]; intros [|p ps]; cbn; auto.
+    rewrite IH. unfold pend1, prog_runs. cbn [fst snd]. rewrite (wk_prog _ _ Hk). reflexivity.
+  Qed.
+
+  Definition decided (e : list event) (k : task) : nat :=
+    count_occ Nat.eq_dec (accepted e) k + count_occ Nat.eq_dec (rejected e) k + count_occ Nat.eq_dec (inlined e) k.
+
+  Lemma decided_app : forall e e' k, decided (e ++ e') k = decided e k + decided e' k.
+  Proof.
+    intros e e' k. unfold decided, accepted, rejected, inlined. rewrite !flat_map_app, !count_occ_app. unfold task in *. lia.
+  Qed.
+
+  Definition PInv (progs : list (list uop)) (s : psys) : Prop :=
+    forall k, decided (evs s) k + count_occ Nat.eq_dec (pending s) k = count_occ Nat.eq_dec (submitted progs) k.
+
+  Lemma PInv_step : forall progs s l s', coh s -> PInv progs s -> pstep s l = Some s' -> PInv progs s'.
+  Proof.
+    intros progs s l s' C I H k. specialize (I k). pose proof (pstep_sound _ _ _ H) as R. rewrite pending_views in *.
+    assert (Hsame : forall t v v', nth_error (views s) t = Some v -> pend1 v' = pend1 v ->
+              count_occ Nat.eq_dec (flat_map pend1 (upd t v' (views s))) k = count_occ Nat.eq_dec (flat_map pend1 (views s)) k).
+    { intros t v v' Hv He. pose proof (count_flat_map_upd _ pend1 _ _ _ v' k Hv) as Hc. rewrite He in Hc. lia. }
+    assert (Hth : forall t, pc_at s t <> None -> exists th, nth_error (threads (mon s)) t = Some th).
+    { intros t Hp. destruct (nth_error (threads (mon s)) t) eqn:E; eauto. exfalso. apply nth_error_None in E.
+      destruct C as (Hlen & _). apply nth_error_Some in Hp. lia. }
+    inversion R; subst; cbn [evs]; unfold views at 1; cbn [pcs mon threads].
+    - pose proof (cohL_pc_at _ _ _ _ C H0) as Hpc. rewrite (views_upd_th _ _ _ _ _ Hpc H0).
+      rewrite (Hsame _ (nth t (pcs s) WDone, th)); auto. apply nth_error_combine; auto.
+      unfold pend1, prog_runs. cbn [fst snd prog]. rewrite H2. reflexivity.
+    - pose proof (cohL_pc_at _ _ _ _ C H0) as Hpc. rewrite (views_upd_th _ _ _ _ _ Hpc H0).
+      rewrite (Hsame _ (nth t (pcs s) WDone, th)); auto. apply nth_error_combine; auto.
+      unfold pend1, prog_runs. cbn [fst snd prog]. rewrite H2. reflexivity.
+    - pose proof (cohL_pc_at _ _ _ _ C H0) as Hpc. rewrite (views_upd_th _ _ _ _ _ Hpc H0).
+      rewrite (Hsame _ (nth t (pcs s) WDone, th)); auto. apply nth_error_combine; auto.
+    - pose proof (cohL_pc_at _ _ _ _ C H0) as Hpc. rewrite (views_upd_th _ _ _ _ _ Hpc H0).
+      rewrite (Hsame _ (nth t (pcs s) WDone, th)); auto. apply nth_error_combine; auto.
+    - (* return from a section *)
+      pose proof (cohL_pc_at _ _ _ _ C H0) as Hpc.
+      assert (Hv : nth_error (views s) t = Some (nth t (pcs s) WDone, th)) by (apply nth_error_combine; auto).
+      rewrite (pending_wakes _ _ _ (apply_signals_wakes sg picks _)), combine_upd. fold (views s).
+      pose proof (count_flat_map_upd _ pend1 _ _ _ (after_ret (nth t (pcs s) WDone) r, mkThread rest Idle) k Hv) as Hc.
+      rewrite decided_app.
+      assert (E1 : pend1 (nth t (pcs s) WDone, th) =
+                   (match o with PRun k0 => [k0] | _ => [] end) ++ pend1 (after_ret (nth t (pcs s) WDone) r, mkThread rest Idle)).
+      { unfold pend1, prog_runs. cbn [fst snd prog]. rewrite H2, pc_ops_after_ret. cbn [flat_map]. rewrite <- app_assoc. reflexivity. }
+      rewrite E1, count_occ_app in Hc.
+      assert (E2 : decided (ev_of t o r) k = count_occ Nat.eq_dec (match o with PRun k0 => [k0] | _ => [] end) k).
+      { destruct o as [k0| | |]; destruct r as [| |[k1|]| |]; unfold decided; cbn;
+        repeat match goal with |- context [Nat.eq_dec ?a ?b] => destruct (Nat.eq_dec a b) end; lia. }
+      rewrite E2. unfold task in *. lia.
+    - destruct (set_prog_spec _ _ _ _ _ _ _ H2) as (th & Hn & Hs & ->). cbn [threads].
+      destruct (views_upd_both s t WLoop th WTake (mkThread [PTake] Idle) H0 Hn) as (Ev & Hv). rewrite Ev.
+      rewrite (Hsame _ _ _ Hv); auto.
+      destruct C as (_ & Hc). destruct (Hc _ _ _ H0 Hn) as (_ & _ & Hq). unfold pend1, prog_runs. cbn [fst snd prog pc_ops].
+      rewrite Hq. reflexivity.
+    - destruct (Hth t) as (th & Hn); [congruence|]. rewrite (views_upd_pc _ _ _ _ _ H0 Hn).
+      rewrite (Hsame _ (WLoop, th)); auto. apply nth_error_combine; auto.
+    - destruct (Hth t) as (th & Hn); [congruence|]. rewrite (views_upd_pc _ _ _ _ _ H0 Hn).
+      rewrite decided_app. rewrite (Hsame _ (WGot k0, th)); auto; [|apply nth_error_combine; auto].
+      unfold decided at 2. cbn. lia.
+    - destruct (Hth t) as (th & Hn); [congruence|]. rewrite (views_upd_pc _ _ _ _ _ H0 Hn).
+      assert (Hv : nth_error (views s) t = Some (CIdle (URun k0 :: ops), th)) by (apply nth_error_combine; auto).
+      pose proof (count_flat_map_upd _ pend1 _ _ _ (CIdle ops, th) k Hv) as Hc.
+      assert (E1 : count_occ Nat.eq_dec (pend1 (CIdle (URun k0 :: ops), th)) k =
+                   count_occ Nat.eq_dec [k0] k + count_occ Nat.eq_dec (pend1 (CIdle ops, th)) k).
+      { unfold pend1. cbn [fst snd pc_ops runs_of flat_map]. rewrite !count_occ_app. unfold task in *. lia. }
+      rewrite decided_app. assert (E2 : decided [EvInline t k0] k = count_occ Nat.eq_dec [k0] k)
+        by (unfold decided; cbn; repeat match goal with |- context [Nat.eq_dec ?a ?b] => destruct (Nat.eq_dec a b) end; lia).
+      rewrite E2. unfold task in *. lia.
+    - destruct (set_prog_spec _ _ _ _ _ _ _ H2) as (th & Hn & Hs & ->). cbn [threads].
+      destruct (views_upd_both s t _ th (snd (call_of uo ops)) (mkThread [fst (call_of uo ops)] Idle) H0 Hn) as (Ev & Hv).
+      rewrite Ev. rewrite (Hsame _ _ _ Hv); auto.
+      destruct C as (_ & Hc). destruct (Hc _ _ _ H0 Hn) as (_ & _ & Hq). unfold pend1, prog_runs. cbn [fst snd prog].
+      rewrite Hq. destruct uo; reflexivity.
+    - destruct (Hth t) as (th & Hn); [congruence|]. rewrite (views_upd_pc _ _ _ _ _ H0 Hn).
+      rewrite (Hsame _ (CJoin i ops, th)); auto. apply nth_error_combine; auto.
+    - destruct (Hth t) as (th & Hn); [congruence|]. rewrite (views_upd_pc _ _ _ _ _ H0 Hn).
+      rewrite decided_app. rewrite (Hsame _ (CJoin i ops, th)); auto; [|apply nth_error_combine; auto].
+      unfold decided at 2. cbn. lia.
+  Qed.
+
+  Lemma PInv_init : forall progs, PInv progs (pinit nw progs).
+  Proof.
+    intros progs k. unfold decided, pending, pinit. cbn [evs pcs mon threads init_sys accepted rejected inlined flat_map count_occ].
+    rewrite map_app, combine_app_eq by (rewrite map_length, !repeat_length; reflexivity). rewrite flat_map_app, count_occ_app.
+    assert (E1 : flat_map (fun x : pc * thread pop => prog_runs (snd x) ++ runs_of (pc_ops (fst x)))
+                   (combine (repeat WLoop nw) (map (fun p : list pop => mkThread p Idle) (repeat [] nw))) = []).
+    { apply flat_map_nil_all. intros [p th] Hin. pose proof (in_combine_l _ _ _ _ Hin) as Hp.
+      pose proof (in_combine_r _ _ _ _ Hin) as Ht. apply repeat_spec in Hp. apply in_map_iff in Ht.
+      destruct Ht as (q & <- & Hq). apply repeat_spec in Hq. subst. reflexivity. }
+    rewrite E1. cbn [count_occ Nat.add]. unfold submitted. f_equal. rewrite map_map.
+    induction progs as [|p r IH]; cbn [map combine flat_map]; auto. rewrite IH. reflexivity.
+  Qed.
+
+  Theorem PInv_reach : forall progs s, preach nw maxq (pinit nw progs) s -> PInv progs s.
+  Proof.
+    intros progs s Hr. assert (coh s /\ PInv progs s) as (_ & I); auto. revert s Hr. apply preach_inv.
+    - split; [apply coh_init|apply PInv_init].
+    - intros s l s' _ (C & I) H. split; [eapply coh_step|eapply PInv_step]; eauto.
+  Qed.
+
+  (* every run(k) of every client program is decided exactly once (accepted, rejected because the pool
+     was stopped, or run inline) or still pending; distinct submitted tasks start at most once *)
+  Theorem every_run_decided_once : forall progs s, preach nw maxq (pinit nw progs) s ->
+    (forall k, count_occ Nat.eq_dec (accepted (evs s)) k + count_occ Nat.eq_dec (rejected (evs s)) k +
+               count_occ Nat.eq_dec (inlined (evs s)) k + count_occ Nat.eq_dec (pending s) k =
+               count_occ Nat.eq_dec (submitted progs) k) /\
+    (NoDup (submitted progs) -> forall k, count_occ Nat.eq_dec (started (evs s)) k + count_occ Nat.eq_dec (inlined (evs s)) k <= 1).
+  Proof.
+    intros progs s Hr. pose proof (PInv_reach _ _ Hr) as I. split; [exact I|].
+    intros Hnd k. specialize (I k). unfold decided in I. pose proof (at_most_once _ _ Hr k) as Ha.
+    rewrite (NoDup_count_occ Nat.eq_dec) in Hnd. specialize (Hnd k). unfold task in *. lia.
   Qed.
 End Pool.
 
